@@ -4,11 +4,13 @@
   observed by the check, not proved.)
   Termination of the model: every definition in `Model/` is a total function accepted by Lean's
   termination checker; the fuel-indexed ones are shown never to exhaust the fuel supplied at their
-  entry point (`C07.parse_never_out_of_fuel`, `C09.expand_never_out_of_fuel`, and below).
+  entry point (`C07.parse_never_out_of_fuel`, `C07.lex_never_out_of_fuel`, `C09.expand_never_out_of_fuel`,
+  `text_front_end_never_out_of_fuel` below).
 -/
 import BespokeVerif.Model.Run
 import BespokeVerif.Model.Select
 import BespokeVerif.Lemmas.Run
+import BespokeVerif.Lemmas.ParseFuel
 namespace BV.C14
 open BV
 
@@ -111,5 +113,23 @@ theorem image_length_bound (start stop : Int) (fill : Nat) (m : List (Int × Nat
 theorem empty_line_no_key (es₁ es₂ : List Emitted) (e : Emitted) (he : e.bytes = []) :
     memMap (es₁ ++ e :: es₂) = memMap (es₁ ++ es₂) := by
   exact memMap_skip_empty es₁ es₂ e he
+
+/-! ## the text front end is total: it never gives up for lack of fuel -/
+
+/-- every recursive call of the statement parser is on a strictly shorter text, so fuel above the
+    length of the line is enough (no mnemonic is the empty word) -/
+theorem statement_parser_never_out_of_fuel (cfg : PCfg) (hmn : cfg.mnemonics.contains "" = false)
+    (f : Nat) (t : List Char) (h : t.length < f) : parseStmts cfg f t ≠ .error .outOfFuel :=
+  parseStmts_noOof cfg hmn f t h
+
+/-- a whole source file: whatever the text, the front end answers with statements or with a genuine
+    error, never with "out of fuel" - a rejection by the model is never an artefact of the fuel -/
+theorem text_front_end_never_out_of_fuel (cfg : PCfg) (hmn : cfg.mnemonics.contains "" = false) (text : String) :
+    parseFile cfg text ≠ .error .outOfFuel :=
+  parseFile_noOof cfg hmn text
+
+/-- evaluation of an expression is structural: no fuel involved -/
+theorem eval_never_out_of_fuel (env : String → Option Int) (e : E) : evalE env e ≠ .error .outOfFuel :=
+  evalE_noOof env e
 
 end BV.C14
